@@ -3,6 +3,7 @@
    abstract deletion on documents. *)
 From SJ Require Import Model.Base Model.RefTables Spec.Json Spec.EditSpec Model.Driver Model.Tape Model.Iter Model.Walk Model.Edit Model.WF
      Proofs.TapeBase Proofs.TapeSeg Proofs.TapePath Proofs.TapeEdit Proofs.TapeDelete Proofs.TapeProofs Tie.GoTablesTie.
+From SJ Require Import Model.Marshal Model.Serialize Proofs.MarshalProofsRefine Proofs.LookupIface Proofs.SerBase Proofs.ApiAgree.
 Open Scope N_scope.
 
 (* Array.DeleteElems: one callback per live element, in order; the new tape
@@ -62,3 +63,23 @@ Proof. destruct tie_tags as (_ & _ & _ & _ & _ & _ & _ & _ & I & _ & K & _ & M &
 Print Assumptions C14_array_delete_refines.
 Print Assumptions C14_object_delete_refines.
 Print Assumptions C14_traversal_after_deletions.
+
+(* every read, marshal and serialize API exposes the same document on every
+   tape reachable by parsing and in-place edits: plain traversal, Interface(),
+   MarshalJSON (= the document-level printer) and a Serialize/Deserialize round
+   trip (for every string hash) all return the tape's denotation — which the
+   refinement theorems above say is the original document with exactly the
+   addressed values replaced / the selected members removed *)
+Theorem C14_every_api_agrees : forall pj ds,
+  N.of_nat (length (pj_msg pj)) < two64 -> N.of_nat (length (pj_strings pj)) < two64 ->
+  tape_ok pj -> denote (pj_msg pj) (pj_strings pj) (pj_tape pj) = Some ds ->
+  walk_doc pj = Ok ds /\
+  interface_doc pj = match ds with [] => Err | _ => Ok (map doc_ival ds) end /\
+  marshal_iter pj (iter0 pj) = marshal_spec ds /\
+  (forall (hash : bytes -> N) tags vals strbuf,
+     N.of_nat (length (pj_tape pj)) < two56 -> Forall (fun w => w < two64) (pj_tape pj) ->
+     ser_core hash pj = Ok (tags, vals, strbuf) -> N.of_nat (length strbuf) < STRINGBUFBIT ->
+     exists t', deser_core (repeat 0 (length (pj_tape pj))) tags (bytes_of_words vals) = Ok t' /\
+                denote strbuf [] t' = Some ds).
+Proof. exact every_api_agrees. Qed.
+Print Assumptions C14_every_api_agrees.
